@@ -367,6 +367,7 @@ func checkC09(r *Run) {
 	} else {
 		r4.Lost(key+"/connected-wait", "connected-phase select not found")
 	}
+	c.ruleErrBeforeDone(r4)
 	// ---- R-C09-5
 	outer := m.Outer
 	okID := len(m.Connect.Call.Args) >= 4 && len(outer.Params) >= 4 &&
@@ -799,3 +800,45 @@ func checkC08(r *Run) {
 }
 
 var _ = fmt.Sprintf
+
+// ruleErrBeforeDone: the reader goroutine records the connection error before it closes Done(): the reconnect loop reads
+// Err() right after <-Done() and takes nil for a graceful end (no redial).
+func (c *Ctx) ruleErrBeforeDone(rr *RuleRep) {
+	conn := c.Method("BaseClient", "Connect")
+	setErr := c.Method("BaseClient", "SetErrorOnce")
+	var reader *ssa.Function
+	if conn != nil {
+		eachInstr(conn, func(in ssa.Instruction) {
+			if g, ok := in.(*ssa.Go); ok {
+				reader = c.StaticCalleeOf(&g.Call)
+			}
+		})
+	}
+	if reader == nil || setErr == nil {
+		rr.Lost("reader goroutine", "not found")
+		return
+	}
+	fld := c.closedField()
+	var se, cl ssa.Instruction
+	eachInstr(reader, func(in ssa.Instruction) {
+		if c.isCallTo(in, setErr) {
+			se = in
+		}
+		if k, ok := in.(*ssa.Call); ok {
+			if b, ok := k.Call.Value.(*ssa.Builtin); ok && b.Name() == "close" {
+				if _, isF := isLoadOfField(c.Resolve(k.Call.Args[0]), fld); isF {
+					cl = in
+				}
+			}
+		}
+	})
+	if se == nil || cl == nil {
+		rr.Bad(FuncName(reader)+"/err-before-done", reader.Pos(), "the reader goroutine does not both record the error and close Done()")
+		return
+	}
+	if _, found := CanReach(reader, cl, func(x ssa.Instruction) bool { return x == se }, PathQ{}); found {
+		rr.Bad(FuncName(reader)+"/err-before-done", cl.Pos(), "Done() can be closed before the connection error is recorded: the reconnect loop wakes up, reads Err() == nil, takes the loss for an expected disconnect and never dials again")
+		return
+	}
+	rr.OK(FuncName(reader)+"/err-before-done", se.Pos(), "SetErrorOnce precedes close(Done())")
+}
